@@ -42,6 +42,15 @@ def setup_state(eng: Engine, contract: Contract, fi):
         if names and names[0] in ("self", "cls"):
             st.env[names[0]] = self_ref
             names = names[1:]
+    root_shape = getattr(contract, "root_shape", None)
+    if root_shape and self_ref is None:
+        root = st.ghost["$root"] = eng.new_obj(root_shape)
+        # components reachable from the root object point back to it (one app, one set of components)
+        for fld, fty in eng.reg.shapes[root_shape].fields.items():
+            if isinstance(fty, ObjT) and "app" in eng.reg.shapes[fty.shape].fields:
+                child = eng.heap_read(st, root, fld)
+                st.heap[(child.oid, "app")] = root
+                st.old_heap[(child.oid, "app")] = root
     for n in names:
         if n not in contract.params:
             raise Unsupported(f"parameter {n} of {contract.key} has no declared type")
@@ -188,9 +197,11 @@ def verify_function(src: Source, reg: Registry, contract: Contract, prefix: str,
         st, self_ref, args = setup_state(eng, contract, fi)
         eng.self_ref = self_ref
         frame = set()
-        if self_ref is not None:
-            for oid, fld, _ref in eng.frame_cells(st, self_ref, contract):
+        frame_root = self_ref if self_ref is not None else st.ghost.get("$root")
+        if frame_root is not None:
+            for oid, fld, _ref in eng.frame_cells(st, frame_root, contract):
                 frame.add((oid, fld))
+        if frame_root is not None:
             st.ghost["$frame_cells"] = frame
         # preconditions
         if contract.shape and contract.check_invariants:
